@@ -467,6 +467,50 @@ class Origins:
             return Term("call", ("<indirect>", tuple(args)), (self.fn.id, b))
         return Term("call", (name, tuple(args)), (self.fn.id, b))
 
+    def _inline_thin_from(self, callee, args, site):
+        rt = self.of_local(0)
+        if rt.k != "call" or any(x.k in ("unknown", "phi") for x in walk(rt)):
+            return None
+        return _subst_params(rt, args, site)
+
+    def _inline_thin(self, name, args, b, depth):
+        """a local 'thin wrapper' (straight-line getter / forwarding helper): its return term with parameters substituted,
+        the outermost call keeping the CALLER's site (so that two calls of the helper stay two different values)"""
+        callee = self.facts.fns.get(name)
+        if callee is None or callee is self.fn or depth > 20 or getattr(self, "_inlining", 0) >= 2:
+            return None
+        if not thin_wrapper(callee):
+            return None
+        sub = Origins(callee, self.facts)
+        sub._inlining = getattr(self, "_inlining", 0) + 1
+        rt = sub.of_local(0)
+        if rt.k != "call" or any(x.k in ("unknown", "phi") for x in walk(rt)):
+            return None
+        site = (self.fn.id, b)
+
+        def subst(t, top=False):
+            if t.k == "param":
+                i = t.a[0] - 1
+                return args[i] if 0 <= i < len(args) else t
+            if t.k == "field":
+                return project(subst(t.a[0]), t.a[1])
+            if t.k == "downcast":
+                return Term("downcast", (subst(t.a[0]), t.a[1]))
+            if t.k == "call":
+                return Term("call", (t.a[0], tuple(subst(x) for x in t.a[1])), site if top else t.site)
+            if t.k == "bin":
+                return Term("bin", (t.a[0], subst(t.a[1]), subst(t.a[2])), t.site)
+            if t.k == "un":
+                return Term("un", (t.a[0], subst(t.a[1])), t.site)
+            if t.k in ("agg", "closure"):
+                return Term(t.k, (t.a[0], tuple((n, subst(x)) for n, x in t.a[1])), t.site)
+            if t.k == "discr":
+                return Term("discr", subst(t.a))
+            if t.k == "index":
+                return Term("index", subst(t.a))
+            return t
+        return subst(rt, True)
+
 
 def project(t, name):
     """field projection on a term; looks through aggregates"""
@@ -1320,3 +1364,63 @@ def error_starts(fn):
     out = sorted(out)
     fn._cache["error_starts"] = out
     return out
+
+
+def thin_wrapper(fn):
+    """a function that only forwards: no loop, no branching other than panics, at most two non-transparent calls"""
+    c = fn._cache.get("thin")
+    if c is not None:
+        return c
+    ok = fn.kind != "closure" and len(fn.blocks) <= 12
+    n = 0
+    if ok:
+        for b, blk in enumerate(fn.blocks):
+            if blk["cleanup"]:
+                continue
+            t = blk["t"]
+            if t["k"] == "switch":
+                ok = False
+                break
+            if t["k"] == "call" and not is_transparent(cname(t)):
+                n += 1
+        ok = ok and 1 <= n <= 2 and not any(in_cycle(fn, b) for b in fn.normal_blocks())
+    fn._cache["thin"] = ok
+    return ok
+
+
+def through_thin(facts, t, depth=0):
+    """if t is a call to a local thin wrapper, the wrapper's return term with the arguments substituted (recursively);
+    rules use this where a getter/forwarding helper may stand between the site and the primitive they look for"""
+    if t.k != "call" or depth > 3:
+        return t
+    callee = facts.fns.get(t.a[0])
+    if callee is None or not thin_wrapper(callee):
+        return t
+    og = Origins(callee, facts)
+    inl = og._inline_thin_from(callee, list(t.a[1]), t.site)
+    return through_thin(facts, inl, depth + 1) if inl is not None else t
+
+
+def _subst_params(rt, args, site):
+    def subst(t, top=False):
+        if t.k == "param":
+            i = t.a[0] - 1
+            return args[i] if 0 <= i < len(args) else t
+        if t.k == "field":
+            return project(subst(t.a[0]), t.a[1])
+        if t.k == "downcast":
+            return Term("downcast", (subst(t.a[0]), t.a[1]))
+        if t.k == "call":
+            return Term("call", (t.a[0], tuple(subst(x) for x in t.a[1])), site if top else t.site)
+        if t.k == "bin":
+            return Term("bin", (t.a[0], subst(t.a[1]), subst(t.a[2])), t.site)
+        if t.k == "un":
+            return Term("un", (t.a[0], subst(t.a[1])), t.site)
+        if t.k in ("agg", "closure"):
+            return Term(t.k, (t.a[0], tuple((n, subst(x)) for n, x in t.a[1])), t.site)
+        if t.k == "discr":
+            return Term("discr", subst(t.a))
+        if t.k == "index":
+            return Term("index", subst(t.a))
+        return t
+    return subst(rt, True)
